@@ -84,12 +84,21 @@ def construct(d, rng, depth, ctx):
                     'accentverb', 'newline', 'opformula', 'umacro0', 'gls',
                     'mathunk', 'specialrun', 'defmac', 'optmac', 'hash',
                     'texorpdf', 'nonumber', 'textinmath', 'xspace', 'cites',
-                    'twofoot', 'mlarg', 'mlarg', 'ctlglue', 'phrase'])
+                    'twofoot', 'mlarg', 'mlarg', 'ctlglue', 'phrase', 'ctlarg'])
     d.kind(k)
     if k == 'textbf':
         d.add('\\textbf{')
         sentence(d, rng, depth - 1, ctx)
         d.add('}')
+    elif k == 'ctlarg':
+        # a control word as the last token of a macro argument: the blank
+        # behind the closing brace separates the words (TeX skips blanks
+        # behind the control word only)
+        d.add(rng.choice(['\\um{', '\\umm{', '\\textbf{', '\\umo{']))
+        d.word(rng)
+        d.add(' ' + rng.choice(['\\LaTeX', '\\TeX', '\\dots']) + '}')
+        d.add(rng.choice([' ', '\n', '  ']))
+        d.word(rng)
     elif k == 'phrase':
         # a phrase that a replacement list of the option matrix rewrites
         # (longer and shorter replacement)
